@@ -23,6 +23,9 @@ type c01Case struct {
 
 // oracleSelfCheck cross-checks the reference verdict with encoding/json where both are defined.
 func oracleSelfCheck(in []byte, v rj.Verdict) error {
+	if nestingDepthOfText(in) > 9000 {
+		return nil // encoding/json refuses documents nested deeper than 10000 levels: no second opinion there
+	}
 	switch v {
 	case rj.MustAccept:
 		if !json.Valid(in) {
